@@ -6,7 +6,7 @@
    topology) is decided by the implementation-side monitor on the fake servers
    (C10 is labelled partial for that clause, DESIGN.md section 10). *)
 From Coq Require Import ZArith NArith Bool List.
-From Mysync Require Import Gtid.Interval Gtid.GtidSet Base.Prog Base.ProgFacts Base.Config Procs.NodeOps Procs.ActiveNodes Procs.Switchover Procs.Repair Env.World Proofs.RepairProofs Proofs.SettleProofs Proofs.WorldProofs.
+From Mysync Require Import Gtid.Interval Gtid.GtidSet Base.Prog Base.ProgFacts Base.Config Procs.NodeOps Procs.ActiveNodes Procs.Switchover Procs.Repair Procs.DiskGuard Procs.OfflineMode Env.World Proofs.RepairProofs Proofs.SettleProofs Proofs.WorldProofs.
 Import ListNotations.
 Open Scope Z_scope.
 
@@ -81,3 +81,53 @@ Print Assumptions C10_one_repair_pass_makes_a_running_replica.
 (* the premises are satisfiable, and by a server that is NOT yet in the canonical state *)
 Example C10_convergence_premises_hold : exists ns, observed_as (w_srv w_example) false ns /\ no_repl_error (w_srv w_example) /\ ~ replica_ok 1%N (w_srv w_example).
 Proof. exact world_premises_hold. Qed.
+
+(* ... and a replica that IS in the canonical state (read-only, both threads running from the recorded master) is only
+   looked at: its repair issues no statement that changes a server and no coordination write, for every response *)
+Theorem C10_converged_replica_is_left_alone : forall cfg env h ns mem rs,
+  ns_ro ns = true -> ns_is_master ns = false -> ns_is_cascade ns = false -> ns_slave ns = Some rs ->
+  rs_source rs = re_master env -> rs_io rs = true -> rs_sql rs = true ->
+  allcalls (fun _ c => looks_only c = true) (repair_slave_node cfg env h ns mem).
+Proof. exact converged_replica_left_alone. Qed.
+Print Assumptions C10_converged_replica_is_left_alone.
+
+(* "... and bring the master online, writable": with no disk-usage report in the health records (disk pressure is not
+   among the dimensions of C10) ONE fault-free pass of repairMasterNode leaves the master with read_only = 0 - and
+   super_read_only = 0 - from ANY combination of the two flags, and sends a writable master nothing that changes it *)
+Theorem C10_one_repair_pass_makes_the_master_writable : forall cfg env ms w,
+  w_host w = re_master env -> ns_ro ms = s_ro (w_srv w) ->
+  (forall h ns, In (h, ns) (re_state_dcs env) -> ns_disk ns = None) ->
+  wout (wrun (repair_master_node cfg env ms) w) = Done tt /\
+  s_ro (w_srv (wworld (wrun (repair_master_node cfg env ms) w))) = false /\
+  (s_ro (w_srv w) = true -> s_sro (w_srv (wworld (wrun (repair_master_node cfg env ms) w))) = false) /\
+  (s_ro (w_srv w) = false -> w_srv (wworld (wrun (repair_master_node cfg env ms) w)) = w_srv w).
+Proof. exact master_repair_unfences. Qed.
+Print Assumptions C10_one_repair_pass_makes_the_master_writable.
+
+(* ... and ONE fault-free pass of repairMasterOfflineMode sets an offline master (not marked for recovery) online, leaving
+   its read-only flag as it was *)
+Theorem C10_one_repair_pass_brings_the_master_online : forall h ns w,
+  w_host w = h -> ns_offline ns = s_offline (w_srv w) ->
+  wout (wrun (repair_master_offline h ns) w) = Done tt /\
+  s_offline (w_srv (wworld (wrun (repair_master_offline h ns) w))) = false /\
+  s_ro (w_srv (wworld (wrun (repair_master_offline h ns) w))) = s_ro (w_srv w).
+Proof. exact master_offline_repair_brings_online. Qed.
+Print Assumptions C10_one_repair_pass_brings_the_master_online.
+
+(* "repeated manager iterations": the canonical state is a FIXED POINT.  From any state (as above) the first pass reaches
+   the canonical state, and the next pass - over whatever getNodeState then reports - leaves the server exactly as it is:
+   read-only, both threads running from the recorded master.  (By induction every later pass does.) *)
+Theorem C10_second_repair_pass_changes_nothing : forall cfg env h ns mem w ns2 mem2,
+  w_host w = h -> h <> re_master env -> observed_as (w_srv w) false ns -> no_repl_error (w_srv w) -> rm_repair mem = [] ->
+  let w1 := wworld (wrun (repair_slave_node cfg env h ns mem) w) in
+  observed_as (w_srv w1) false ns2 ->
+  replica_ok (re_master env) (w_srv w1) /\
+  w_srv (wworld (wrun (repair_slave_node cfg env h ns2 mem2) w1)) = w_srv w1.
+Proof. exact replica_repair_twice. Qed.
+Print Assumptions C10_second_repair_pass_changes_nothing.
+
+Theorem C10_canonical_replica_is_a_fixed_point : forall cfg env h ns mem w,
+  w_host w = h -> observed_as (w_srv w) false ns -> replica_ok (re_master env) (w_srv w) ->
+  w_srv (wworld (wrun (repair_slave_node cfg env h ns mem) w)) = w_srv w.
+Proof. exact replica_fixed_point. Qed.
+Print Assumptions C10_canonical_replica_is_a_fixed_point.
